@@ -532,6 +532,54 @@ class _LinalgProxy(object):
             return SArr(exact_solve(a, b), ld)
         return self._real.solve(a, b)
 
+    def solve_triangular(self, a, b, trans=0, lower=False, unit_diagonal=False, **kw):
+        if _has_sym(a) or _has_sym(b):
+            _hit('scipy.linalg.solve_triangular')
+            A = np.array(np.asarray(a).view(np.ndarray), dtype=object)
+            n = A.shape[0]
+            # only the referenced triangle is read (LAPACK trtrs)
+            for i in range(n):
+                for j in range(n):
+                    if (lower and j > i) or (not lower and j < i):
+                        A[i, j] = S.const(0)
+                    elif unit_diagonal and i == j:
+                        A[i, j] = S.const(1)
+            if trans in (1, 'T', 2, 'C'):
+                A = A.T
+            ld = np.promote_types(logical_of(a) or float, logical_of(b) or float)
+            return SArr(exact_solve(A, b), ld)
+        return self._real.solve_triangular(a, b, trans=trans, lower=lower, unit_diagonal=unit_diagonal, **kw)
+
+    def lu_solve(self, lu_and_piv, b, trans=0, **kw):
+        lu, piv = lu_and_piv
+        if _has_sym(lu) or _has_sym(b):
+            _hit('scipy.linalg.lu_solve')
+            LU = np.asarray(lu).view(np.ndarray)
+            n = LU.shape[0]
+            L = np.empty((n, n), dtype=object)
+            U = np.empty((n, n), dtype=object)
+            for i in range(n):
+                for j in range(n):
+                    L[i, j] = LU[i, j] if j < i else S.const(1 if i == j else 0)
+                    U[i, j] = LU[i, j] if j >= i else S.const(0)
+            perm = list(range(n))
+            for i, pv in enumerate(np.asarray(piv).tolist()):
+                perm[i], perm[int(pv)] = perm[int(pv)], perm[i]
+            B = np.array(np.asarray(b).view(np.ndarray), dtype=object)
+            ld = np.promote_types(logical_of(lu) or float, logical_of(b) or float)
+            if trans in (0, 'N'):
+                # A = P L U with rows of A permuted: (L U) = A[perm]  =>  x = U^-1 L^-1 b[perm]
+                y = exact_solve(L, B[perm])
+                return SArr(exact_solve(U, y), ld)
+            # A^T x = b:  U^T L^T (x[perm]) = b
+            y = exact_solve(U.T, B)
+            z = exact_solve(L.T, y)
+            x = np.empty_like(z)
+            for i, pi in enumerate(perm):
+                x[pi] = z[i]
+            return SArr(x, ld)
+        return self._real.lu_solve(lu_and_piv, b, trans=trans, **kw)
+
     def _stub(self, name, *args, **kw):
         if any(_has_sym(a) for a in args):
             f = self._stubs.get(name)
